@@ -231,29 +231,77 @@ macro "own_tie" : tactic => `(tactic|
          name_cases n with (simp [*, List.find?, M3.spec, set_field_same3] <;> (repeat' split) <;> simp_all)
    · simp))
 
+/-- when a level answers "not supported metric" the token has the shape `name:value` with both parts non-empty and the object is
+    unchanged (so a higher level need not test the shape again) -/
+theorem decodeOwn_nsm3 {own : List M3} {o o' : Obj3} {tok : Bytes} (h : decodeOwn own o tok = (o', some Err.notSupportMetric)) :
+    ∃ n v, split 58 tok = [n, v] ∧ n ≠ [] ∧ v ≠ [] ∧ o' = o := by
+  unfold decodeOwn colon at h
+  split at h
+  · rename_i n v hs
+    by_cases hnv : n = [] ∨ v = []
+    · simp [hnv] at h
+    · simp only [hnv, if_false] at h
+      cases hf : own.find? (fun m => m.spec.name == n) with
+      | none =>
+        simp only [hf] at h
+        exact ⟨n, v, hs, fun e => hnv (Or.inl e), fun e => hnv (Or.inr e), (Prod.mk.inj h).1.symm⟩
+      | some m =>
+        simp only [hf] at h
+        by_cases hb : o.named m
+        · simp [hb] at h
+        · simp only [hb] at h
+          by_cases hz : m.spec.get v = 0 <;> simp [hz] at h
+  · simp at h
+
+/-- the own part of a higher level's `decodeOne` once the lower level has answered "not supported metric": the token shape is known,
+    whether the source tests it again or not -/
+macro "deleg_tie3" hr:term : tactic => `(tactic|
+  (obtain ⟨n, v, hs, hn, hv, ho⟩ := $hr
+   subst ho
+   simp only [orElse]
+   unfold decodeOwn colon
+   simp only [hs]
+   simp only [namesGet, lvlMs, baseMs, tempMs, envMs]
+   name_cases n with (simp [*, List.find?, M3.spec, set_field_same3] <;> (repeat' split) <;> simp_all)))
+
 theorem Temporal_decodeOne_3 (o : Obj3) (tok : Bytes) : Gen.D3.Temporal_decodeOne o tok = some (decodeOneTemporal o tok) := by
   unfold Gen.D3.Temporal_decodeOne decodeOneTemporal
   simp only [Base_decodeOne_3, GetExploitability_3, GetRemediationLevel_3, GetReportConfidence_3]
-  generalize decodeOneBase o tok = r
-  rcases r with ⟨o', e⟩
+  rcases hr : decodeOneBase o tok with ⟨o', e⟩
   rcases e with _ | e
   · simp [orElse]
-  · cases e <;> simp [orElse]
-    unfold decodeOwn colon
-    own_tie
+  · by_cases he : e = Err.notSupportMetric
+    · subst he
+      deleg_tie3 (decodeOwn_nsm3 hr)
+    · cases e <;> simp_all [orElse]
+
+theorem decodeOneTemporal_nsm3 {o o' : Obj3} {tok : Bytes} (h : decodeOneTemporal o tok = (o', some Err.notSupportMetric)) :
+    ∃ n v, split 58 tok = [n, v] ∧ n ≠ [] ∧ v ≠ [] ∧ o' = o := by
+  unfold decodeOneTemporal orElse at h
+  rcases hb : decodeOneBase o tok with ⟨o1, e1⟩
+  rw [hb] at h
+  rcases e1 with _ | e1
+  · simp at h
+  · by_cases he : e1 = Err.notSupportMetric
+    · subst he
+      simp only at h
+      obtain ⟨n, v, hs, hn, hv, ho⟩ := decodeOwn_nsm3 h
+      obtain ⟨_, _, _, _, _, ho1⟩ := decodeOwn_nsm3 hb
+      exact ⟨n, v, hs, hn, hv, by rw [ho, ho1]⟩
+    · cases e1 <;> simp_all
 
 theorem Environmental_decodeOne_3 (o : Obj3) (tok : Bytes) : Gen.D3.Environmental_decodeOne o tok = some (decodeOneEnv o tok) := by
   unfold Gen.D3.Environmental_decodeOne decodeOneEnv
   simp only [Temporal_decodeOne_3, GetConfidentialityRequirement_3, GetIntegrityRequirement_3, GetAvailabilityRequirement_3,
     GetModifiedAttackVector_3, GetModifiedAttackComplexity_3, GetModifiedPrivilegesRequired_3, GetModifiedUserInteraction_3,
     GetModifiedScope_3, GetModifiedConfidentialityImpact_3, GetModifiedIntegrityImpact_3, GetModifiedAvailabilityImpact_3]
-  generalize decodeOneTemporal o tok = r
-  rcases r with ⟨o', e⟩
+  rcases hr : decodeOneTemporal o tok with ⟨o', e⟩
   rcases e with _ | e
   · simp [orElse]
-  · cases e <;> simp [orElse]
-    unfold decodeOwn colon
-    own_tie
+  · by_cases he : e = Err.notSupportMetric
+    · subst he
+      deleg_tie3 (decodeOneTemporal_nsm3 hr)
+    · cases e <;> simp_all [orElse]
 
 /-- the body of the loop of `Decode`, in the form the generated lambda takes once `decodeOne` has been rewritten -/
 def loopBody {ρ : Type} (dec : Obj3 → Bytes → Obj3 × Option Err) (mk : Obj3 → Option Err → ρ) :
@@ -566,28 +614,76 @@ theorem Base_decodeOne_2 (o : Obj2) (tok : Bytes) : Gen.D2.Base_decodeOne o tok 
     GetAvailabilityImpact_2]
   own_tie2
 
+/-- when a level answers "not supported metric" the token has the shape `name:value` with both parts non-empty, the object is unchanged
+    and the name is none of that level's (so a higher level need not test the shape again) -/
+theorem decodeOwn_nsm2 {own : List M2} {o o' : Obj2} {tok : Bytes} (h : decodeOwn own o tok = (o', some Err.notSupportMetric)) :
+    ∃ n v, split 58 tok = [n, v] ∧ n ≠ [] ∧ v ≠ [] ∧ o' = o := by
+  unfold decodeOwn colon at h
+  split at h
+  · rename_i n v hs
+    by_cases hnv : n = [] ∨ v = []
+    · simp [hnv] at h
+    · simp only [hnv, if_false] at h
+      cases hf : own.find? (fun m => m.spec.name == n) with
+      | none =>
+        simp only [hf] at h
+        exact ⟨n, v, hs, fun e => hnv (Or.inl e), fun e => hnv (Or.inr e), (Prod.mk.inj h).1.symm⟩
+      | some m =>
+        simp only [hf] at h
+        by_cases hb : o.named m
+        · simp [hb] at h
+        · simp only [hb] at h
+          by_cases hz : m.spec.get v = 0 <;> simp [hz] at h
+  · simp at h
+
+/-- the own part of a higher level's `decodeOne` once the lower level has answered "not supported metric": the token shape is known,
+    whether the source tests it again or not -/
+macro "deleg_tie2" hr:term : tactic => `(tactic|
+  (obtain ⟨n, v, hs, hn, hv, ho⟩ := $hr
+   subst ho
+   simp only [orElse]
+   unfold decodeOwn colon
+   simp only [hs]
+   simp only [namesGet, lvlMs, baseMs, tempMs, envMs]
+   name_cases n with (simp [*, List.find?, M2.spec, set_field_same2] <;> (repeat' split) <;> simp_all)))
+
 theorem Temporal_decodeOne_2 (o : Obj2) (tok : Bytes) : Gen.D2.Temporal_decodeOne o tok = some (decodeOneTemporal o tok) := by
   unfold Gen.D2.Temporal_decodeOne decodeOneTemporal
   simp only [Base_decodeOne_2, GetExploitability_2, GetRemediationLevel_2, GetReportConfidence_2]
-  generalize decodeOneBase o tok = r
-  rcases r with ⟨o', e⟩
+  rcases hr : decodeOneBase o tok with ⟨o', e⟩
   rcases e with _ | e
   · simp [orElse]
-  · cases e <;> simp [orElse]
-    unfold decodeOwn colon
-    own_tie2
+  · by_cases he : e = Err.notSupportMetric
+    · subst he
+      deleg_tie2 (decodeOwn_nsm2 hr)
+    · cases e <;> simp_all [orElse]
+
+theorem decodeOneTemporal_nsm2 {o o' : Obj2} {tok : Bytes} (h : decodeOneTemporal o tok = (o', some Err.notSupportMetric)) :
+    ∃ n v, split 58 tok = [n, v] ∧ n ≠ [] ∧ v ≠ [] ∧ o' = o := by
+  unfold decodeOneTemporal orElse at h
+  rcases hb : decodeOneBase o tok with ⟨o1, e1⟩
+  rw [hb] at h
+  rcases e1 with _ | e1
+  · simp at h
+  · by_cases he : e1 = Err.notSupportMetric
+    · subst he
+      simp only at h
+      obtain ⟨n, v, hs, hn, hv, ho⟩ := decodeOwn_nsm2 h
+      obtain ⟨_, _, _, _, _, ho1⟩ := decodeOwn_nsm2 hb
+      exact ⟨n, v, hs, hn, hv, by rw [ho, ho1]⟩
+    · cases e1 <;> simp_all
 
 theorem Environmental_decodeOne_2 (o : Obj2) (tok : Bytes) : Gen.D2.Environmental_decodeOne o tok = some (decodeOneEnv o tok) := by
   unfold Gen.D2.Environmental_decodeOne decodeOneEnv
   simp only [Temporal_decodeOne_2, GetCollateralDamagePotential_2, GetTargetDistribution_2, GetConfidentialityRequirement_2,
     GetIntegrityRequirement_2, GetAvailabilityRequirement_2]
-  generalize decodeOneTemporal o tok = r
-  rcases r with ⟨o', e⟩
+  rcases hr : decodeOneTemporal o tok with ⟨o', e⟩
   rcases e with _ | e
   · simp [orElse]
-  · cases e <;> simp [orElse]
-    unfold decodeOwn colon
-    own_tie2
+  · by_cases he : e = Err.notSupportMetric
+    · subst he
+      deleg_tie2 (decodeOneTemporal_nsm2 hr)
+    · cases e <;> simp_all [orElse]
 
 def loopBody2 {ρ : Type} (dec : Obj2 → Bytes → Obj2 × Option Err) (mk : Obj2 → Option Err → ρ) :
     Obj2 × Option Err → Bytes → Option (Step (Obj2 × Option Err) ρ) :=
